@@ -401,6 +401,20 @@ class ExprMixin:
                     t = z3.If(b.t == c, z3.BitVecVal(1 << c, BVW), t)
                 return SV(TBV, t)
             raise Unsupported("shift")
+        if isinstance(op, ast.RShift):
+            # w >> p with p a constant or an Int position: logical shift of the non-negative word (macro over the positions, never int2bv)
+            x = self.bv_of(a, st)
+            if isinstance(b, int) and not isinstance(b, bool):
+                if not 0 <= b < BVW:
+                    raise Unsupported("shift amount")
+                return SV(TBV, z3.LShR(x, z3.BitVecVal(b, BVW)))
+            if isinstance(b, SV) and b.ty is TInt:
+                self.emit("safe.shift", f"L{getattr(node, 'lineno', 0)}", st, b.t >= 0)
+                t = z3.BitVecVal(0, BVW)                       # p >= BVW: every bit of the word is shifted out
+                for c in range(BVW - 1, -1, -1):
+                    t = z3.If(b.t == c, z3.LShR(x, z3.BitVecVal(c, BVW)), t)
+                return SV(TBV, t)
+            raise Unsupported("shift")
         x, y = self.bv_of(a, st), self.bv_of(b, st)
         if isinstance(op, ast.BitAnd):
             return SV(TBV, x & y)
